@@ -1,10 +1,12 @@
 import Librfn.Driver.Pure
 import Librfn.Driver.Mlog
 import Librfn.Driver.Hex
+import Librfn.Driver.List
 
 def main (args : List String) : IO UInt32 :=
   match args with
   | "pure" :: rest => Librfn.Driver.Pure.main rest
   | "mlog" :: rest => Librfn.Driver.Mlog.main rest
   | "hex" :: rest => Librfn.Driver.Hex.main rest
+  | "list" :: rest => Librfn.Driver.List.main rest
   | _ => do IO.eprintln "usage: librfn_model <engine> [args]"; return 2
